@@ -135,6 +135,8 @@ package align
 //@   ensures counts(a, len(a.seq1ali))
 //@   ensures colsok(a.seq1ali, a.seq2ali, len(a.seq1ali))
 //@   ensures 0 <= a.start1 && a.start1 <= a.end1 + 1 && a.end1 < len1(a) && 0 <= a.start2 && a.start2 <= a.end2 + 1 && a.end2 < len2(a)
+// anchored mode: the last column of the returned rows holds a residue of the second sequence
+//@   ensures a.algo == ALIGN_ALGO_ATG ==> a.seq2ali[len(a.seq2ali)-1] != '-'
 //@   ensures a.algo != ALIGN_ALGO_ATG ==> a.end1 == old(a.maxi) && a.end2 == old(a.maxj)
 //@   ensures pwok(a) && sepseqs(a) && bufs(a.seq1ali, a.seq2ali, a.alistr) && len1(a) == old(len1(a)) && len2(a) == old(len2(a))
 //@   ensures a.algo != ALIGN_ALGO_ATG ==> forall k :: 0 <= k && k < len1(a) ==> a.seq1.sequence[k] == old(a.seq1.sequence[k])
@@ -155,6 +157,8 @@ package align
 //@   ensures a.algo != ALIGN_ALGO_ATG && old(alphaok1(a) && alphaok2(a)) && len1(a) > 0 && len2(a) > 0 ==> err == nil
 // the two gapped rows: same length, at least one column, no all-gap column
 //@   ensures err == nil ==> len(a.seq1ali) == len(a.seq2ali) && len(a.seq1ali) >= 1 && colsok(a.seq1ali, a.seq2ali, len(a.seq1ali))
+// anchored mode: the last column holds a residue of the second sequence (so that row is not made of gaps only)
+//@   ensures err == nil && a.algo == ALIGN_ALGO_ATG ==> a.seq2ali[len(a.seq2ali)-1] != '-'
 // counters (relative to their values at entry: they are never reset) and reported positions
 //@   ensures err == nil ==> counts(a, len(a.seq1ali))
 //@   ensures err == nil ==> 0 <= a.start1 && a.start1 <= a.end1 + 1 && a.end1 < len1(a) && 0 <= a.start2 && a.start2 <= a.end2 + 1 && a.end2 < len2(a)
